@@ -15,9 +15,10 @@ import (
 
 func init() {
 	fw.Register(&fw.Property{
-		ID:     "C02",
-		Level:  "exploration",
-		Jitter: true,
+		ID:         "C02",
+		Level:      "exploration",
+		Jitter:     true,
+		RaceSample: true,
 		Rule: "seeded SAM files with non-conflicting 1-4 record queries (40% emphasis on several records carrying insertions with short anchors, either record order, N-skips next to insertions, insertions at reference position 0 and L) x skip-insertions x omit-reference x window x wrap x threads, directory mode in-process and stdout mode through the binary; " +
 			"non-trivial = query set has an insertion or a multi-record query; distinct = (max records, insertion count class, insertion owner pattern, min anchor class, options)",
 		Assumptions: []string{
